@@ -24,6 +24,8 @@ import JanetModel.Lib.Boot5
 import JanetModel.Lib.Boot6
 import JanetModel.Lib.Boot8
 import JanetModel.Lib.MiscC2
+import JanetModel.Lib.Boot9
+import JanetModel.Lib.Boot10
 open Driver JanetModel.Lib
 
 inductive V where
@@ -176,6 +178,13 @@ def cat2fn (name : String) : Option (Int → Int → List Int) :=
   match name with
   | "tup" => some (fun x y => [x, y]) | "tupsum" => some (fun x y => [x + y])
   | "tup3" => some (fun x y => [y, x, y]) | _ => none
+
+instance : Inhabited (Boot.Nest V) := ⟨.node []⟩
+
+/-- a value as `flatten` sees it -/
+partial def toNest : V → Boot.Nest V
+  | .seq _ l => .node (l.map toNest)
+  | v => .leaf v
 
 def ints (l : List V) : Option (List Int) := l.mapM (fun v => match v with | .int i => some i | _ => none)
 
@@ -701,7 +710,10 @@ def call (f : String) (args : List V) : Out :=
     withMirror (Boot.frequencies l) (some (frequencies l)) args (.ok (.tbl 1 ((frequencies l).map (fun kv => (kv.1, V.int kv.2)))) args)
   | "merge", colls =>
     (match colls.mapM (fun v => match v with | .tbl _ l => some l | _ => none) with
-     | some cs => .ok (.tbl 1 (merge cs)) args
+     | some cs =>
+       (match Boot.merge cs with
+        | .ok m => if (V.tbl 1 m) == (V.tbl 1 (merge cs)) then .ok (.tbl 1 (merge cs)) args else .ok (.other "MIRROR-MISMATCH") args
+        | _ => .ok (.other "MIRROR-UB") args)
      | none => .skip)
   | "zipcoll", [.seq _ ks, .seq _ vs] =>
     (match Boot.zipcoll ks vs with
@@ -728,14 +740,14 @@ def call (f : String) (args : List V) : Out :=
      | _ => .skip)
   | "reverse!", [x] =>
     (match x with
-     | .seq 1 l => .ok (.seq 1 l.reverse) (setArg0 args (.seq 1 l.reverse))
-     | .str 1 b => .ok (.str 1 b.reverse) (setArg0 args (.str 1 b.reverse))
+     | .seq 1 l => withMirror (Boot.reverseBang l) (some l.reverse) args (.ok (.seq 1 l.reverse) (setArg0 args (.seq 1 l.reverse)))
+     | .str 1 b => withMirror (Boot.reverseBang b) (some b.reverse) args (.ok (.str 1 b.reverse) (setArg0 args (.str 1 b.reverse)))
      | _ => .skip)
   | "flatten", [.seq _ l] =>
     let rec flat : Nat → List V → List V
       | 0, _ => []
       | fuel + 1, l => l.flatMap (fun v => match v with | .seq _ l' => flat fuel l' | v => [v])
-    .ok (.seq 1 (flat 64 l)) args
+    withMirror (Boot.flatten 64 (l.map toNest)) (some (flat 64 l)) args (.ok (.seq 1 (flat 64 l)) args)
   | "sort", (.seq 1 l) :: rest | "sorted", (.seq k l) :: rest =>
     (match ints l, (match rest with | [] => cmp "lt" | [.fn c] => cmp c | _ => none) with
      | some xs, some before =>
